@@ -11,6 +11,7 @@ CONSTANTS
   BugNilErr = FALSE
   BugTrunc = FALSE
   BugOkOnHubErr = FALSE
+  BugReqAlias = FALSE
   BugNegOk = FALSE
   KeyOT = TRUE
   KeyDst = TRUE
